@@ -793,6 +793,22 @@ func c12RangeMixed(c *hx.Ctx, r *hx.RNG) {
 	k := r.Intn(nd) // at least one fractional digit
 	m, _ := new(big.Int).SetString(string(ds), int(1<<uint(bits)))
 	f := int64(nd-k) * bits
+	nines := r.Chance(30)
+	if nines {
+		// aim the value at a run of nines (m x 5^f = 99...9xxx): a rounding to few digits carries into the next decade,
+		// out of the range when the value sits in the top one
+		f = int64(r.Range(1, 4)) * bits
+		t := new(big.Int).Sub(oracle.Pow10(int64(r.Range(1, 10))), big.NewInt(1))
+		t.Mul(t, oracle.Pow10(int64(r.Range(10, 15))))
+		m = t.Quo(t, new(big.Int).Exp(big.NewInt(5), big.NewInt(f), nil))
+		txt := m.Text(int(1 << uint(bits)))
+		nfd := int(f / bits)
+		for len(txt) <= nfd {
+			txt = "0" + txt
+		}
+		ds, k = []byte(txt), len(txt)-nfd
+		nd = len(ds)
+	}
 	coef := new(big.Int).Mul(m, new(big.Int).Exp(big.NewInt(5), big.NewInt(f), nil))
 	// aim the exponent so that the value's leading digit lands within a few places of a range end
 	end := []int64{oracle.MaxExp, oracle.MinExp}[r.Intn(2)]
@@ -808,6 +824,9 @@ func c12RangeMixed(c *hx.Ctx, r *hx.RNG) {
 	inRange := lead >= oracle.MinExp && lead <= oracle.MaxExp
 	mode := r.Mode()
 	p := int64(r.Range(1, 45))
+	if nines {
+		p = int64(r.Range(1, 8))
+	}
 	z := usedRecv(r, p, mode)
 	var res *decimal.Decimal
 	var err error
